@@ -62,7 +62,7 @@ TARGETS = targets()
 
 def bounds(tier):
     return {"tier": tier, "source_systems": 20, "to_targets": len(TARGETS), "backends": ["MP (60 digits)", "OBJ float64", "NP", "AKA"], "flavors": 2,
-            "keywords": "none / each single keyword / both, scalar and array-valued", "dimension_changes": ["to_Vector2D/3D/4D", "to_2D/3D/4D", "like(2D/3D/4D other)"]}
+            "keywords": "none / each single keyword / both, scalar and array-valued; value variants pos / 0.0 / -0.0 / 0 / sign-flipped", "array_dtypes": ["float64", "int64", "int32", "float32 (keyword imputation only)"], "dimension_changes": ["to_Vector2D/3D/4D", "to_2D/3D/4D", "like(2D/3D/4D other)"]}
 
 
 def shards(tier):
@@ -461,6 +461,70 @@ def check_arrays(res: Result, dim, ssys, backend, tier, only=None):
                     res.nontrivial += 1
 
 
+def check_arrays_dtype(res: Result, dim, ssys, backend):
+    """arrays whose coordinate fields are typed int64 / int32 / float32 (small integers): retained stored coordinates stay
+    bit-for-bit *and typed*, and an imputed keyword value is added exactly (0.5 stays 0.5, 0.1 stays the float64 0.1)"""
+    from .C03 import _int_rows
+
+    names = L.field_names(ssys)
+    rows = _int_rows(ssys, "a")
+    n = len(rows)
+    for dtname, npdt in (("int64", np.int64), ("int32", np.int32), ("float32", np.float32)):
+        for flavor in ("generic", "momentum"):
+            fnames = L.field_names(ssys, flavor)
+            if backend == "NP":
+                arr = vector.array({fn: np.array([r[i] for r in rows], dtype=npdt) for i, fn in enumerate(fnames)})
+            else:
+                arr = vector.Array(ak.values_astype(ak.Array([dict(zip(fnames, r)) for r in rows]), npdt))
+            base = {"sys": list(ssys), "flavor": flavor, "backend": backend, "dtype": dtname}
+            calls = []
+            for label, meth, kws, tdim in dim_calls(dim):
+                if tdim > dim:
+                    for variant, vals in (("half", {"l": 0.5, "t": 2.25}), ("tenth", {"l": -1.25, "t": 0.1})):
+                        calls.append((label[:-1] + ";" + variant + ")" if kws else label, meth, {k: (vals["l"] if k in L_SPELL else vals["t"]) for k in kws}, tdim))
+            for name, tsys, kwmap in TARGETS:
+                tdim = len(tsys) + 1
+                missing = [f for f in L.field_names(tsys)[2:] if (f in ("z", "theta", "eta") and dim < 3) or (f in ("t", "tau") and dim < 4)]
+                if missing and tsys[: len(ssys)] == tuple(ssys):
+                    calls.append((name + "(" + ",".join(kwmap[f] for f in missing) + ";half)", name, {kwmap[f]: (0.5 if f in ("z", "theta", "eta") else 2.25) for f in missing}, tdim))
+            for label, meth, kwargs, tdim in calls:
+                res.states += 1
+                res.transitions += 1
+                res.traces += 1
+                res.evaluations += 1
+                cls = f"dtype_{dtname}|{label}|{L.sysname(ssys)}|{backend}"
+                case = dict(base, call=label)
+                try:
+                    r = getattr(arr, meth)(**kwargs)
+                    kind, rsys, rflavor, rrows, struct = B.result_rows(r)
+                except Exception as e:  # noqa: BLE001
+                    res.violation(cls + "|raises", f"{label} on a {dtname}-typed array raised {type(e).__name__}: {str(e)[:160]}", case)
+                    continue
+                rfields = L.field_names(rsys)
+                bad = None
+                for k, v_ in kwargs.items():
+                    g = L_SPELL.get(k) or T_SPELL.get(k) or GEN_OF.get(k, k)
+                    if g not in rfields:
+                        bad = f"keyword {k} names coordinate {g}, the result is stored as {rsys}"
+                        break
+                    j = rfields.index(g)
+                    if any(float(row[j]) != float(v_) for row in rrows):
+                        bad = f"imputed {g} = {[row[j] for row in rrows]!r}, expected exactly {v_!r}"
+                        break
+                if bad is None and rsys[: len(ssys)] == tuple(ssys):
+                    for i, row in enumerate(rrows):
+                        if tuple(float(x) for x in row[: len(names)]) != tuple(float(x) for x in rows[i][: len(names)]):
+                            bad = f"retained stored coordinates of element {i} changed: {rows[i]} -> {row[: len(names)]}"
+                            break
+                if bad:
+                    res.violation(cls, f"{label} on a {dtname}-typed {backend} array: {bad}", case)
+                else:
+                    res.nontrivial += 1
+
+
+GEN_OF = {"pz": "z", "e": "t", "E": "t", "energy": "t", "m": "tau", "M": "tau", "mass": "tau"}
+
+
 def run_shard(shard, tier):
     res = Result()
     dim, ssys, backend = shard["dim"], tuple(shard["sys"]), shard["backend"]
@@ -473,6 +537,8 @@ def run_shard(shard, tier):
         res.sample({"backend": backend, "sys": list(ssys), "vectors": len(vs), "calls_per_vector": len(TARGETS), "example": list(vs[0].comps)})
     else:
         check_arrays(res, dim, ssys, backend, tier)
+        if dim < 4:
+            check_arrays_dtype(res, dim, ssys, backend)
     return res
 
 
@@ -480,6 +546,9 @@ def replay(case):
     res = Result()
     call = case.get("call", "")
     only = call.split("(")[0] if call and not call.startswith("dimchange") else ("dimchange" if call else None)
+    if "dtype" in case:
+        check_arrays_dtype(res, len(case["sys"]) + 1, tuple(case["sys"]), case["backend"])
+        return res
     if "backend" in case:
         check_arrays(res, len(case["sys"]) + 1, tuple(case["sys"]), case["backend"], "thorough", only=only)
     else:
